@@ -45,6 +45,13 @@ Theorem C19_p_flags : forall v, (0 <= v < 2 ^ 32)%Z ->
                  value_of 16 (hexl (Z.to_N v)) 0 = Z.to_N v).
 Proof. apply p_flags_ok_spec. vm_compute. reflexivity. Qed.
 
+(* non-vacuity of C19_p_flags: both branches are taken, and the masks really come from the table *)
+Example C19_p_flags_example :
+  p_flags_string abi_consts 5 = "R E" /\ p_flags_string abi_consts 2 = " W " /\ p_flags_string abi_consts 0 = "   " /\
+  p_flags_string abi_consts 8 = "p_flags(0x8)" /\ p_flags_string abi_consts 4294967295 = "p_flags(0xffffffff)" /\
+  const_val abi_consts "PF_R" = Some 4%Z /\ const_val abi_consts "PF_W" = Some 2%Z /\ const_val abi_consts "PF_X" = Some 1%Z.
+Proof. repeat split; vm_compute; reflexivity. Qed.
+
 (* non-vacuity: the reference table is not empty and the crate exports names from it *)
 Example C19_example :
   const_val abi_consts "SHT_NOBITS" = Some 8%Z /\ In ("SHT_NOBITS", 8%Z) ref_consts /\
